@@ -146,6 +146,10 @@ def run(ctx: Ctx) -> int:
 		a = anno_of_forest(f['forest'])
 		if a not in annos:
 			annos.append(a)
+	# rows whose flattened type sequences agree while their trees differ (SymExport.TypesDoNotDetermineShape) stand in
+	# one module: the annotations are grouped by the sequence of type names below the declared type
+	import re
+	annos.sort(key=lambda a: (tuple(re.findall(r'\w+', a))[1:], a))
 	jobs = []
 	lib = 'class K:\n\tn: int\n\tdef __init__(self, n: int) -> None:\n\t\tself.n = n\n\nclass Q(K):\n\tm: str\n\tdef __init__(self, n: int) -> None:\n\t\tsuper().__init__(n)\n\t\tself.m = \'\'\n\ndef mk(n: int) -> K:\n\treturn K(n)\n\ntable: dict[str, list[K]] = {}\nnames = [\'a\', \'b\']\nopt: str | None = None\npair: tuple[int, str] = (1, \'a\')\nnested: list[dict[str, tuple[int, K]]] = []\n'
 	step = 12
